@@ -51,6 +51,10 @@ theorem reader_indices_in_bounds :
     (∀ t ∈ read2Then ++ read2Else, t.1 < read2Adv) ∧ (∀ t ∈ read4Then ++ read4Else, t.1 < read4Adv) ∧
     (∀ t ∈ read8Then ++ read8Else, t.1 < read8Adv) := by decide
 
+/-- `swapBytes` reads `bx` only inside its `n` bytes and mirrors the index -/
+theorem swap_index_in_bounds (n i : Nat) (h : i < n) : swapIndex n i < n ∧ swapIndex n i = n - 1 - i := by
+  unfold swapIndex; omega
+
 /-- each `operator>>` of `StreamBufferReader` consumes `sizeof(T)` bytes -/
 theorem gen_reader_dispatch (t : Ty) : sbrNeed t = sizeofT t := by cases t <;> rfl
 
